@@ -6,8 +6,6 @@ let rec int_of_pos (p : positive) : int = match p with XH -> 1 | XO q -> 2 * int
 let int_of_z (x : z) : int = match x with Z0 -> 0 | Zpos p -> int_of_pos p | Zneg p -> - (int_of_pos p)
 let rec nat_of_int (n : int) : nat = if n <= 0 then O else S (nat_of_int (n - 1))
 let rec int_of_nat (n : nat) : int = match n with O -> 0 | S m -> 1 + int_of_nat m
-let n_of_int (k : int) : n = if k = 0 then N0 else Npos (pos_of_int k)
-let int_of_n (x : n) : int = match x with N0 -> 0 | Npos p -> int_of_pos p
 let split_ws (s : string) : string list = List.filter (fun x -> x <> "") (String.split_on_char ' ' (String.trim s))
 let ints_of_line (s : string) : int list = List.map int_of_string (split_ws s)
 let iter_lines (f : string -> unit) : unit =
